@@ -127,7 +127,7 @@ def run(ctx):
     grog = ctx.grog_binary()
     stats = {"builds": 0, "ok": 0, "platform-error": 0, "nothing-selected": 0, "executed_commands": 0}
     if grog:
-        for w in range(10 if quick else 120):
+        for w in range(30 if quick else 300):
             bad_corr += cli_build(ctx, grog, rng, w, stats, nontrivial)
     cov["cli"] = stats
     cov["distinct_nontrivial"] = len(nontrivial)
@@ -152,7 +152,7 @@ def resolve(nodes, deps, i):
     return i
 
 
-def cli_build(ctx, grog, rng, w, stats, nontrivial):
+def gen_cli_case(rng):
     req = G.gen_select_req(rng, rng.randint(3, 10))
     nodes = req["nodes"]
     for n in nodes:
@@ -169,6 +169,18 @@ def cli_build(ctx, grog, rng, w, stats, nontrivial):
     req["type"] = "no_test" if cmd == "build" else "test"
     req["op"] = "graph.select"
     req["cur"] = req["cur"] if req["cur"] in {n["pkg"] for n in nodes} else ""
+    return req, cmd
+
+
+def cli_build(ctx, grog, rng, w, stats, nontrivial):
+    # prefer cases in which something is selected or selection fails (an empty selection is kept now and then)
+    for attempt in range(8):
+        req, cmd = gen_cli_case(rng)
+        ref = G.ref_select(req)
+        if ref is None or ref[0] == "platform" or len(ref[1]) >= 2 or rng.random() < 0.1:
+            break
+    nodes = req["nodes"]
+    es = [tuple(e) for e in req["edges"]]
     scratch = ctx.scratch(f"b{w}")
     ws = os.path.join(scratch, "ws")
     trace = os.path.join(scratch, "trace.log")
